@@ -417,7 +417,11 @@ def call_term_method(it, recv, name, args, kwargs, env, node):
         return op("cumtrapz", recv, to_term(coord))
     if name in ("sum", "mean", "std", "max", "min", "argmax", "argmin", "prod", "cumsum", "all", "any"):
         axis = args[0] if args else (kw(kwargs, "dim") if "dim" in kwargs else kw(kwargs, "axis"))
-        return reduce_op(name, recv, axis, kw(kwargs, "skipna"))
+        skipna = kw(kwargs, "skipna")
+        named = isinstance(axis, str) or T.is_str_symbol(axis) or "dim" in kwargs
+        if named and skipna is None and name in ("sum", "mean", "std", "max", "min"):
+            skipna = True  # xarray reductions over a named dimension skip NaN for float data by default
+        return reduce_op(name, recv, axis, skipna)
     if name == "where":
         cond = args[0] if args else kw(kwargs, "cond")
         other = args[1] if len(args) > 1 else kw(kwargs, "other", T.NAN_T)
@@ -566,7 +570,10 @@ def read_tabulate(it, tab, idx):
 
 
 def term_setitem(it, base, idx, value, env, node):
-    return op("store", base, to_term(idx), to_term(value))
+    ti = to_term(idx)
+    if fname(base) == "store" and base.args[1] == ti:
+        base = base.args[0]  # overwriting the element just written
+    return op("store", base, ti, to_term(value))
 
 
 # ============================================================================ python containers
